@@ -40,7 +40,43 @@ def make_case(r):
         k = r.randint(1, 3)
         rules = realrun.simple_spec(
             f'count:{t}>={k} count:{t}>={k + 2} ! & hash:2:0 |')
+    chain = None
+    if r.random() < 0.3:
+        # dependency chain: command d_i can only be removed after d_{i+1}
+        # (a later BFS node) is gone, so a sweep that found a reduction has
+        # to be followed by another one from the start
+        n = r.randint(4, 9)
+        kind = r.choice(['decl', 'string', 'quoted'])
+        if kind == 'decl':
+            lines = [f'(declare-const d{i} Int)' for i in range(n)]
+            toks = [f'd{i}' for i in range(n)]
+        elif kind == 'string':
+            # only the late mutator StringSimplifyConstant can make "" appear
+            lines = ['(declare-const s String)'] + [
+                f'(assert (= s "lit{i}"))' for i in range(n)]
+            toks = None
+        else:
+            lines = [f'(declare-const |q{i}| Int)' for i in range(n)]
+            toks = [f'|q{i}|' for i in range(n)]
+        text = '\n'.join(lines + ['(check-sat)']) + '\n'
+        q = realrun.pct
+        if toks:
+            conj = []
+            for i in range(n - 1):
+                # has(d_{i+1}) -> has(d_i)
+                conj.append(f'has:{q(toks[i + 1])} ! has:{q(toks[i])} |')
+            pred = conj[0]
+            for c in conj[1:]:
+                pred += f' {c} &'
+            pred += ' has:check-sat &'
+        else:
+            # the declaration may only go once some literal has become ""
+            pred = 'has:s has:%22%22 | has:check-sat &'
+        rules = realrun.simple_spec(pred)
+        chain = kind
     strat = r.choice(['hierarchical', 'hybrid'])
+    if chain:
+        strat = 'hierarchical'
     j = r.choice([1, 2, 4, 8])
     # explicit group flags: theory detection must not differ between the
     # two runs of observer (ii)
@@ -49,7 +85,13 @@ def make_case(r):
         on = r.random() < 0.75 or g in ('core', 'smtlib')
         groups.append(f'--{g}' if on else f'--no-{g}')
     toggles = []
-    if r.random() < 0.4:
+    if chain and r.random() < 0.5:
+        groups = [f'--no-{g}' for g in GROUPS] + ['--erase-node']
+        if chain == 'string':
+            groups += ['--str-constants']
+        if chain == 'quoted':
+            groups += ['--simplify-quoted-symbols']
+    if r.random() < 0.4 and not chain:
         from vlib import dd
         ns = dd.load()
         allopts = [opt for (_, _, opt, _) in
@@ -64,7 +106,8 @@ def make_case(r):
         if r.random() < 0.5 else None
     return text, rules, opts, inj, delay, {
         'input': text, 'rules': rules, 'strategy': strat, 'jobs': j,
-        'inject': inj, 'delay': delay, 'mutator_options': groups + toggles}
+        'inject': inj, 'delay': delay, 'mutator_options': groups + toggles,
+        'chain': chain}
 
 
 def classify(acc):
@@ -171,7 +214,7 @@ def shard(args):
 
 
 def run(ctx):
-    n = 6 if ctx.tier == 'quick' else 100
+    n = 12 if ctx.tier == 'quick' else 100
     shards = [{'shard': i, 'n': n, 'second': 3 if ctx.tier == 'quick' else 2}
               for i in range(common.NCPU)]
     results = common.run_shards('checks.c02', shards, timeout=3400)
